@@ -147,17 +147,45 @@ def _ep_tag(tag):
     return Response('tag:' + tag)
 
 
+class WhoMW(Middleware):
+    """per-instance state: every application of the world carries its OWN instance (unique type)"""
+    provides = ('who',)
+
+    def __init__(self, who):
+        self.who = who
+
+    def request(self, next):
+        return next(who=self.who)
+
+
+def _mk_who_ep(tag):
+    def ep(who, res_shared):
+        return Response(tag + '@' + who + '/' + res_shared)
+    return ep
+
+
+def _late_wrapper(earlier, tag):
+    """functools.wraps around an endpoint some application has already bound and served, with ANOTHER signature"""
+    import functools
+
+    @functools.wraps(earlier)
+    def wrapper(who, res_shared='dflt'):
+        return Response(tag + '@' + who + '/' + res_shared)
+    return wrapper
+
+
 def _world():
     w = {}
-    w['R0'] = Route('/r0', _mk_ep('r0'))
+    w['R0'] = Route('/r0', _mk_who_ep('r0'))      # answers with the serving application's WhoMW instance
     w['R1'] = Route('/r1/<x>', _ep_x)
     w['S'] = Application([Route('/s0', _mk_ep('s0')), Route('/s1/', _mk_ep('s1'))])
     # embedding SB fails at its SECOND route: that route's own middleware provides `q`, which conflicts with the
     # embedding application's ProvQ (inside SB alone there is no conflict)
     w['SB'] = Application([Route('/ok', _mk_ep('sb-ok')), Route('/clash', _mk_ep('sb-clash'), middlewares=[OtherProvQ()]),
                            Route('/after', _mk_ep('sb-after'))])
-    w['apps'] = [Application([], middlewares=[ProvQ()], resources={'res_a': 'A'}),
-                 Application([Route('/b0', _mk_ep('b0'))], middlewares=[ProvQ()], resources={'res_b': 'B'})]
+    w['b0_ep'] = _mk_ep('b0')
+    w['apps'] = [Application([], middlewares=[ProvQ(), WhoMW('A')], resources={'res_shared': 'a'}),
+                 Application([Route('/b0', w['b0_ep'])], middlewares=[ProvQ(), WhoMW('B')], resources={'res_shared': 'b'})]    # same resource NAMES, own values
     w['model'] = [[], [('/b0', 'b0')]]
     return w
 
@@ -175,11 +203,14 @@ def _snapshot(w):
 
 
 def _probe(app, model):
-    """every model route answers with its own endpoint; an unknown path is a 404"""
+    """every model route answers with its own endpoint (and, where it asks for it, with the value of the SERVING
+    application's own middleware instance); an unknown path is a 404"""
+    who = [m for m in app.middlewares if isinstance(m, WhoMW)][0].who
     for patt, tag in model:
         path = patt.replace('<x>', 'X')
         resp = app.dispatch(Request(EnvironBuilder(path=path).get_environ()))
-        if resp.status_code != 200 or resp.get_data(True) != (tag if tag != 'r1' else 'r1:X'):
+        want = 'r1:X' if tag == 'r1' else (tag[:-1] + who + '/' + who.lower() if tag.endswith('@?') else tag)
+        if resp.status_code != 200 or resp.get_data(True) != want:
             return False
     resp = app.dispatch(Request(EnvironBuilder(path='/definitely/not/there').get_environ()))
     return resp.status_code == 404
@@ -193,10 +224,10 @@ def _apply(w, t, kind, step):
     app, m = apps[t], model[t]
     if kind == 0:
         app.add(w['R0'])
-        m.append(('/r0', 'r0'))
+        m.append(('/r0', 'r0@?'))
     elif kind == 1:
-        app.add(('/t%d' % step, _mk_ep('t%d' % step)))
-        m.append(('/t%d' % step, 't%d' % step))
+        app.add(('/t%d' % step, _late_wrapper(w['b0_ep'], 't%d' % step)))
+        m.append(('/t%d' % step, 't%d@?' % step))
     elif kind == 2:
         app.add(('/sub%d' % step, w['S']))
         m.extend([('/sub%d/s0' % step, 's0'), ('/sub%d/s1/' % step, 's1')])
@@ -232,7 +263,7 @@ def _apply(w, t, kind, step):
     else:
         # a constructor call that fails must not disturb anything either
         try:
-            Application([w['R0'], ('/x', _ep_dep)])
+            Application([w['R1'], ('/x', _ep_dep)])
             return False
         except NameError:
             pass
